@@ -262,6 +262,7 @@ class RuleRecorder:
         self.dx = {}
         self.vec = []
         self.rpd = {}
+        self.iifd = {}
         self._orig = []
 
     def _dump(self, e):
@@ -372,11 +373,13 @@ class RuleRecorder:
 
         def replace_physical_derivs(self_, e):
             out = orig(self_, e)
-            if out is not None and type(e) is vfm.PartialDerivExpr and len(rr.rpd) < 60:
+            isfield = type(e) is vfm.VarRefExpr and e.is_input_var_expr()
+            if out is not None and (type(e) is vfm.PartialDerivExpr or isfield) and len(rr.rpd) < 90:
                 import json
                 try:
                     din = dump_expr(vfm, e, [50])
-                    key = json.dumps([int(self_.dim), bool(self_.spacetime), din])
+                    key = json.dumps([int(self_.dim), bool(self_.spacetime), din] +
+                                     ([bool(e.var.src.physical)] if isfield else []))
                     if key not in rr.rpd:
                         dout = dump_expr(vfm, out, [4000])
                         names = []
@@ -397,6 +400,27 @@ class RuleRecorder:
         vfm.VForm.replace_physical_derivs = replace_physical_derivs
         self._orig.append((vfm.VForm, 'replace_physical_derivs', orig))
 
+    def install_iifd(self):
+        """VForm.insert_input_field_derivs(e): (dim, e, field name) -> result"""
+        vfm = self.vfm
+        rr = self
+        orig = vfm.VForm.insert_input_field_derivs
+
+        def insert_input_field_derivs(self_, e):
+            out = orig(self_, e)
+            if out is not None and len(rr.iifd) < 60:
+                import json
+                try:
+                    din = dump_expr(vfm, e, [50])
+                    key = json.dumps([int(self_.dim), din, str(e.var.src.name)])
+                    if key not in rr.iifd:
+                        rr.iifd[key] = dump_expr(vfm, out, [200])
+                except TooBig:
+                    pass
+            return out
+        vfm.VForm.insert_input_field_derivs = insert_input_field_derivs
+        self._orig.append((vfm.VForm, 'insert_input_field_derivs', orig))
+
     def uninstall(self):
         for (obj, name, orig) in reversed(self._orig):
             setattr(obj, name, orig)
@@ -408,6 +432,7 @@ class RuleRecorder:
                'lit': [[json.loads(k), v] for k, v in self.lit.items()],
                'dx': [[json.loads(k), v] for k, v in self.dx.items()],
                'vec': self.vec,
-               'rpd': [[json.loads(k), v] for k, v in self.rpd.items()]}
-        self.fold, self.lit, self.dx, self.vec, self.rpd = {}, {}, {}, [], {}
+               'rpd': [[json.loads(k), v] for k, v in self.rpd.items()],
+               'iifd': [[json.loads(k), v] for k, v in self.iifd.items()]}
+        self.fold, self.lit, self.dx, self.vec, self.rpd, self.iifd = {}, {}, {}, [], {}, {}
         return out
